@@ -158,7 +158,8 @@ R.contract(OAS + "BaseOpenAPISchema._into_err", args={"self": Opq("Any"), "error
            effects={"errs": "ghost('errs') + [(path, method)]"}, note="wraps the schema error with its location")
 R.contract("schemathesis.hooks:HookContext", abstract_only=True, args={}, returns=Opq("HookContext"), note="dataclass constructor")
 Entry = DictOf(optional={"parameters": Const(())})
-PI = DictOf(optional={"get": Entry, "post": Entry, "parameters": Const(()), "x-internal": Opq("Ext")})
+# (key order matters to the code under contract: non-method keys come before and between the method keys, as in real documents)
+PI = DictOf(optional={"parameters": Const(()), "get": Entry, "x-internal": Opq("Ext"), "post": Entry})
 PI1 = DictOf(optional={"get": Entry, "post": Entry})
 DOC = "[(p, m) for p in all_paths(self) for m in all_paths(self)[p] if m in ('get', 'put', 'post', 'delete', 'options', 'head', 'patch', 'trace')]"
 R.spec_funcs["all_paths"] = lambda it, self_: self_.fields["raw_schema"]["paths"]
